@@ -42,7 +42,8 @@ CLAIMED = {
         'sleep exactly delay_ms_for_try(#failures)/1000, return f\'s value unchanged; delay_ms_for_try bounds [min(c//2,max), min(c,max)] proved for all arguments. '
         'Classifiers: http clauses (rate limit => transient; 400 + listed message anywhere in e.body => limited retry), an error of no tested class is classified by '
         'its explicit __cause__ chain alone (never by __context__); hailtop.httpx ClientSession.request attaches the whole decoded response body and the status to the '
-        'ClientResponseError it raises for status >= 400.',
+        'ClientResponseError it raises for status >= 400. One obligation is a native enumeration (not a solver proof): no builtin error class outside the two documented '
+        'limited-retry classes is retried by the real async helper unless transient.',
         note=COMMON_NOTE + 'The operation f is an oracle; inside the loops the three classifiers are uninterpreted predicates; which exception classes they count as '
         'transient is not decided (isinstance is an uninterpreted predicate per class); the aiohttp transport is an oracle, bytes.decode() an uninterpreted function; '
         'random.randrange(n) in [0,n); division by 1000.0 treated as real division.',
